@@ -61,6 +61,7 @@ type Unit struct {
 	Tiers      []string          `json:"tiers"` // tiers in which the unit runs (default both)
 	MemGB      int               `json:"mem_gb"`
 	Test       string            `json:"test"` // entry test function (default TestVerif)
+	ModReplace map[string]string `json:"mod_replace"` // extra modules for the harness: module path -> repo-relative dir (added to the alternate modfile only)
 }
 
 type Harness struct {
@@ -334,6 +335,11 @@ func buildUnit(h *Harness, u *Unit, tier, work string) (*built, error) {
 		}
 		dst := filepath.Join(work, "extra", dstRel)
 		mustWrite(dst, subst(b))
+		if strings.HasPrefix(dstRel, "GOMODCACHE/") {
+			// a file of a third-party module (e.g. to own tie-breaking that follows map iteration order)
+			overlay[filepath.Join(goModCache(), strings.TrimPrefix(dstRel, "GOMODCACHE/"))] = dst
+			continue
+		}
 		overlay[filepath.Join(repoDir, dstRel)] = dst
 	}
 
@@ -345,6 +351,9 @@ func buildUnit(h *Harness, u *Unit, tier, work string) (*built, error) {
 	mb, err := os.ReadFile(filepath.Join(modDir, "go.mod"))
 	if err != nil {
 		return nil, err
+	}
+	for mp, dir := range u.ModReplace {
+		mb = append(mb, []byte(fmt.Sprintf("\nrequire %s v0.0.0-00010101000000-000000000000\nreplace %s => %s\n", mp, mp, filepath.Join(repoDir, dir)))...)
 	}
 	mustWrite(filepath.Join(work, "alt.mod"), mb)
 	if sb, err := os.ReadFile(filepath.Join(modDir, "go.sum")); err == nil {
@@ -366,6 +375,18 @@ func buildUnit(h *Harness, u *Unit, tier, work string) (*built, error) {
 		return nil, fmt.Errorf("no test binary produced (no test files?)\n%s", out)
 	}
 	return &built{u: u, bin: bin, work: work}, nil
+}
+
+var modCache string
+
+func goModCache() string {
+	if modCache == "" {
+		cmd := exec.Command("go", "env", "GOMODCACHE")
+		cmd.Env = goEnv()
+		out, _ := cmd.Output()
+		modCache = strings.TrimSpace(string(out))
+	}
+	return modCache
 }
 
 type shardJob struct {
